@@ -84,6 +84,15 @@ def alphabet():
     node.children[2].children[3].content = node.children[2].children[3].encode()[2:]
     node.children[2].children[3].children = None
     A["damaged-binding-list"] = (node.encode(), ADDR2, None, True)
+    # bindings with fewer than two members (the value is missing / the
+    # binding is empty): consistent BER, not a notification
+    node = snmp.community_msg_node(1, b"public", snmp.pdu_node(snmp.PDU_TRAP, 113, 0, 0, vbs3))
+    vb = node.children[2].children[3].children[2]
+    vb.children = vb.children[:1]
+    A["binding-without-value"] = (node.encode(), ADDR1, None, True)
+    node = snmp.community_msg_node(1, b"public", snmp.pdu_node(snmp.PDU_TRAP, 114, 0, 0, vbs3))
+    node.children[2].children[3].children[4].children = []
+    A["empty-binding"] = (node.encode(), ADDR2, None, True)
     A["garbage"] = (b"\x30\x82\xff\xffnot snmp at all", ADDR1, None, True)
     A["empty"] = (b"", ADDR2, None, True)
     d, _ = trap_bytes(b"public", PAYLOADS[0], 105, version=0)
